@@ -77,3 +77,8 @@ check("C01", "exploration",
       "runtime monitor: reference model of the documented script language generates scripts state-aware (it knows the first failing line, the lines that run and the resulting tree); the real RunT runs them through a recording T (sentinel-panic and Goexit styles) with probe commands after every line and WorkdirRoot kept for a tree comparison; the real cmd/testscript binary runs the same scripts for the exit status",
       "Thousands of scripts over the whole documented command set (incl. background jobs, kill/wait, conditions, custom commands and conditions) with a chosen failing line and failure cause, over the Params axes ContinueOnError / RequireExplicitExec / RequireUniqueNames / custom Cmds / custom Condition; verdict, FAIL line numbers (all of them under ContinueOnError), executed-probe list and final file tree are compared with the model; exit status 0 iff no script fails for single files and batches of the standalone command.",
       "Trusted: the reference model in checks/c01/model.go (written from doc.go) and Go's regexp for pattern truth. Runs as root: permission bits are compared, not enforced. Timing-dependent lines (kill of a job that may have exited; skip/stop with jobs outstanding) are not generated. Params.Deadline (30 s) is set only as a safety net against hanging scripts.")
+
+check("C16", "exploration",
+      "runtime monitor: byte-level before/after comparison of the script file, parsed with the reference x/tools txtar parser; expected archive computed independently (only the mismatching goldens of plain cmp lines replaced; '>'-quoting decided by parser ground truth); second run without UpdateScripts",
+      "Generated scripts with 2-6 goldens (plain / nested / $WORK- and ./-spelled names), actual contents from stdout, stderr and files over empty / newline-terminated / CRLF / invalid UTF-8 / no-final-newline / marker-line contents, goldens compared twice, '! cmp', matching cmpenv and outside-archive comparisons, on-disk changes of non-golden entries, dedicated scenarios whose only mismatch must not be repaired, unquotable contents.",
+      "Trusted: x/tools txtar parser/formatter as reference; the expectation builder in checks/c16. Unquotable content (marker lines without final newline) only asserts that the file is not corrupted; scripts that compare one golden with different contents are exempt from the re-run rule.")
